@@ -16,7 +16,9 @@
 //!   unchunk <md>            decode_arbitrary_bytes_from_metadatum
 //!   sfd <type> <json>       serde Deserialize of a hand-written string form, then Serialize of the result
 //!   sfs <type> <value>      Serialize, then Deserialize            (type: bignum int bigint hash28 hash32 assetname)
-//!   ty <Type> <cbor hex>    typed value: from_bytes, to_json, from_json, comparisons (observation stream)
+//!   ty <Type> <cbor hex>    typed value x = from_bytes: y = from_json(to_json(x)); `ok eq=(x==y) bytes=(same to_bytes) norm=(same CBOR up to
+//!                           map-entry order) fix=(y round-trips exactly) lang=(x holds a Plutus V2/V3 script) negint=(x holds a metadatum
+//!                           integer below -2^63)` | `err-tojson ..` | `err-fromjson ..` | `skip ..` (observation stream, no model)
 //! Observation: `<first leg> ; <second leg>` with a leg = `ok <tokens>` | `err` | `panic`; the second leg is
 //! absent when the first did not succeed; `m2j`/`p2j`/`sfs` append `eq=<0|1>` (Rust `==` and equal to_bytes
 //! between the original and the value that came back).
@@ -389,14 +391,56 @@ fn cbor_norm(b: &[u8], p: &mut usize, o: &mut Vec<u8>) -> Option<()> {
 }
 fn cbor_normal(b: &[u8]) -> Option<Vec<u8>> { let mut p = 0; let mut o = Vec::new(); cbor_norm(b, &mut p, &mut o)?; if p == b.len() { Some(o) } else { None } }
 
+// facts about a typed value read through the public accessors (decide the known classes of the typed stream)
+fn ps_nonv1(s: &PlutusScript) -> bool { s.language_version().kind() != LanguageKind::PlutusV1 }
+fn pss_nonv1(s: &PlutusScripts) -> bool { (0..s.len()).any(|i| ps_nonv1(&s.get(i))) }
+fn sr_lang(r: &ScriptRef) -> bool { r.plutus_script().map(|s| ps_nonv1(&s)).unwrap_or(false) }
+fn out_lang(o: &TransactionOutput) -> bool { o.script_ref().map(|r| sr_lang(&r)).unwrap_or(false) }
+fn outs_lang(o: &TransactionOutputs) -> bool { (0..o.len()).any(|i| out_lang(&o.get(i))) }
+fn body_lang(b: &TransactionBody) -> bool { outs_lang(&b.outputs()) || b.collateral_return().map(|o| out_lang(&o)).unwrap_or(false) }
+fn ws_lang(w: &TransactionWitnessSet) -> bool { w.plutus_scripts().map(|s| pss_nonv1(&s)).unwrap_or(false) }
+fn aux_lang(a: &AuxiliaryData) -> bool { a.plutus_scripts().map(|s| pss_nonv1(&s)).unwrap_or(false) }
+fn m_negint(m: &M) -> bool {
+    match m { M::Int(i) => *i < i64::MIN as i128, M::List(l) => l.iter().any(m_negint), M::Map(l) => l.iter().any(|(k, v)| m_negint(k) || m_negint(v)), _ => false }
+}
+fn gm_neg(g: &GeneralTransactionMetadata) -> bool { let ks = g.keys(); (0..ks.len()).any(|i| m_negint(&m_read(&g.get(&ks.get(i)).unwrap()))) }
+fn aux_neg(a: &AuxiliaryData) -> bool { a.metadata().map(|g| gm_neg(&g)).unwrap_or(false) }
+/// (some Plutus script of language V2/V3 inside, some metadatum integer below -2^63 inside)
+fn probe(name: &str, bytes: &[u8]) -> (bool, bool) {
+    let b = bytes.to_vec();
+    match name {
+        "ScriptRef" => (ScriptRef::from_bytes(b).map(|x| sr_lang(&x)).unwrap_or(false), false),
+        "PlutusScripts" => (PlutusScripts::from_bytes(b).map(|x| pss_nonv1(&x)).unwrap_or(false), false),
+        "TransactionOutputLegacy" | "TransactionOutputLegacyDH" | "TransactionOutputMap" | "TransactionOutput" =>
+            (TransactionOutput::from_bytes(b).map(|x| out_lang(&x)).unwrap_or(false), false),
+        "TransactionOutputs" => (TransactionOutputs::from_bytes(b).map(|x| outs_lang(&x)).unwrap_or(false), false),
+        "TransactionBody" => (TransactionBody::from_bytes(b).map(|x| body_lang(&x)).unwrap_or(false), false),
+        "TransactionWitnessSet" => (TransactionWitnessSet::from_bytes(b).map(|x| ws_lang(&x)).unwrap_or(false), false),
+        "GeneralTransactionMetadata" => (false, GeneralTransactionMetadata::from_bytes(b).map(|x| gm_neg(&x)).unwrap_or(false)),
+        "AuxiliaryData" => match AuxiliaryData::from_bytes(b) { Ok(x) => (aux_lang(&x), aux_neg(&x)), Err(_) => (false, false) },
+        "Transaction" => match Transaction::from_bytes(b) {
+            Ok(x) => { let a = x.auxiliary_data();
+                (body_lang(&x.body()) || ws_lang(&x.witness_set()) || a.as_ref().map(aux_lang).unwrap_or(false), a.as_ref().map(aux_neg).unwrap_or(false)) }
+            Err(_) => (false, false) },
+        "Block" => match Block::from_bytes(b) {
+            Ok(x) => {
+                let bs = x.transaction_bodies(); let ws = x.transaction_witness_sets(); let ad = x.auxiliary_data_set(); let ix = ad.indices();
+                let auxs: Vec<AuxiliaryData> = (0..ix.len()).filter_map(|i| ix.get(i).and_then(|k| ad.get(*k))).collect();
+                ((0..bs.len()).any(|i| body_lang(&bs.get(i))) || (0..ws.len()).any(|i| ws_lang(&ws.get(i))) || auxs.iter().any(aux_lang),
+                 auxs.iter().any(aux_neg)) }
+            Err(_) => (false, false) },
+        _ => (false, false),
+    }
+}
+
 macro_rules! ty_arm {
     ($t:ty, $bytes:expr) => {{
         match <$t>::from_bytes($bytes) {
             Err(_) => "skip decode".to_string(),
             Ok(x) => match x.to_json() {
-                Err(_) => "err tojson".to_string(),
+                Err(_) => "err-tojson".to_string(),
                 Ok(s) => match <$t>::from_json(&s) {
-                    Err(_) => "err fromjson".to_string(),
+                    Err(_) => "err-fromjson".to_string(),
                     Ok(y) => {
                         let xb = x.to_bytes(); let yb = y.to_bytes();
                         let eq = y == x; let bytes = xb == yb;
@@ -410,12 +454,32 @@ macro_rules! ty_arm {
         }
     }};
 }
+macro_rules! dbg_arm {
+    ($t:ty, $bytes:expr) => {{
+        match <$t>::from_bytes($bytes) {
+            Err(e) => format!("decode error {:?}", e),
+            Ok(x) => match x.to_json() {
+                Err(e) => format!("to_json error: {}", e.to_string()),
+                Ok(s) => match <$t>::from_json(&s) {
+                    Err(e) => format!("json:\n{}\nfrom_json error: {}", s, e.to_string()),
+                    Ok(y) => format!("json:\n{}\nx bytes {}\ny bytes {}\ny json same: {}\nx dbg {:?}\ny dbg {:?}", s, hex::encode(x.to_bytes()), hex::encode(y.to_bytes()), y.to_json().unwrap() == s, x, y),
+                },
+            },
+        }
+    }};
+}
 macro_rules! ty_dispatch {
     ($name:expr, $bytes:expr; $( $s:literal => $t:ty ),* $(,)?) => {
-        match $name { $( $s => ty_arm!($t, $bytes), )* _ => "skip unknown-type".to_string(), }
+        if std::env::var("C17_DBG").is_ok() { match $name { $( $s => dbg_arm!($t, $bytes), )* _ => "skip unknown-type".to_string(), } } else {
+        match $name { $( $s => ty_arm!($t, $bytes), )* _ => "skip unknown-type".to_string(), } }
     };
 }
 fn exec_ty(name: &str, bytes: Vec<u8>) -> String {
+    let (lang, neg) = probe(name, &bytes);
+    let r = exec_ty0(name, bytes);
+    if r.starts_with("skip") { r } else { format!("{} lang={} negint={}", r, lang as u8, neg as u8) }
+}
+fn exec_ty0(name: &str, bytes: Vec<u8>) -> String {
     ty_dispatch!(name, bytes;
         "TransactionInput" => TransactionInput, "TransactionInputs" => TransactionInputs, "Credential" => Credential,
         "Credentials" => Credentials, "Ed25519KeyHashes" => Ed25519KeyHashes, "DRep" => DRep, "Anchor" => Anchor,
